@@ -43,6 +43,28 @@ pub struct Case {
     /// None: standard input is a pipe. Some(prefix): it is a regular file that
     /// holds prefix + stdin, with the file offset already past the prefix.
     pub stdin_file_prefix: Option<Vec<u8>>,
+    /// Some(seed): pipes and FIFOs deliver their content in 2-3 bursts with pauses.
+    pub bursts: Option<u64>,
+}
+
+fn cut_bursts(content: &[u8], seed: u64) -> Vec<Vec<u8>> {
+    let mut rng = Rng::new(seed ^ content.len() as u64);
+    if content.len() < 2 {
+        return vec![content.to_vec()];
+    }
+    let nl: Vec<usize> = content.iter().enumerate().filter(|(i, b)| **b == b'\n' && *i + 1 < content.len()).map(|(i, _)| i + 1).collect();
+    let mut cuts: Vec<usize> = (0..rng.range(1, 2)).map(|_| if !nl.is_empty() && rng.chance(2, 3) { *rng.pick(&nl) } else { 1 + rng.below(content.len() - 1) }).collect();
+    cuts.sort();
+    cuts.dedup();
+    let mut out = vec![];
+    let mut at = 0;
+    for c in cuts.into_iter().chain([content.len()]) {
+        if c > at {
+            out.push(content[at..c].to_vec());
+            at = c;
+        }
+    }
+    out
 }
 
 fn content(rng: &mut Rng, cl: &mut Classes) -> (Vec<u8>, &'static str) {
@@ -117,7 +139,8 @@ pub fn gen_case(seed: u64, idx: usize, acc: &mut Acc) -> Case {
         }
         _ => None,
     };
-    Case { from, to, inputs, stdin, stdin_file_prefix }
+    let bursts = if rng.chance(1, 5) { Some(rng.next()) } else { None };
+    Case { from, to, inputs, stdin, stdin_file_prefix, bursts }
 }
 
 pub fn judge(case: &Case, acc: &mut Acc) {
@@ -157,11 +180,23 @@ pub fn judge(case: &Case, acc: &mut Acc) {
     let reached = exp.inputs.len() + 1;
     for (n, inp) in case.inputs.iter().enumerate() {
         if inp.kind == "fifo" && n < reached {
-            fifo_threads.push(procmon::feed_fifo(sc.path().join(&inp.name), inp.content.clone()));
+            match case.bursts {
+                Some(bs) => {
+                    acc.count("fifo_delivered_in_bursts");
+                    fifo_threads.push(procmon::feed_fifo_bursts(sc.path().join(&inp.name), cut_bursts(&inp.content, bs), 20));
+                }
+                None => fifo_threads.push(procmon::feed_fifo(sc.path().join(&inp.name), inp.content.clone())),
+            }
         }
     }
     let stdin = match &case.stdin_file_prefix {
-        None => StdinKind::Bytes(case.stdin.clone()),
+        None => match case.bursts {
+            Some(bs) if case.inputs.iter().any(|i| i.kind == "stdin") => {
+                acc.count("stdin_delivered_in_bursts");
+                StdinKind::Bursts(cut_bursts(&case.stdin, bs), 20)
+            }
+            _ => StdinKind::Bytes(case.stdin.clone()),
+        },
         Some(prefix) => {
             if case.inputs.iter().any(|i| i.kind == "stdin") {
                 acc.count(if prefix.is_empty() { "stdin_is_regular_file_at_offset_0" } else { "stdin_is_regular_file_at_later_offset" });
@@ -188,7 +223,7 @@ pub fn judge(case: &Case, acc: &mut Acc) {
     if let Err(e) = climodel::judge_run(&out, &exp) {
         acc.violation(Violation {
             sig: format!("{}", ev::truncate(&crate::c02_mask(&e), 90)),
-            case: json!({"from": case.from.map(|f| f.name()), "to": case.to.name(), "stdin_hex": hex(&case.stdin), "stdin_file_prefix_hex": case.stdin_file_prefix.as_ref().map(|p| hex(p)), "inputs": case.inputs.iter().map(|i| json!({"name": i.name, "kind": i.kind, "content_hex": hex(&i.content), "content_preview": preview(&i.content, 80)})).collect::<Vec<_>>()}),
+            case: json!({"from": case.from.map(|f| f.name()), "to": case.to.name(), "stdin_hex": hex(&case.stdin), "stdin_file_prefix_hex": case.stdin_file_prefix.as_ref().map(|p| hex(p)), "bursts": case.bursts, "inputs": case.inputs.iter().map(|i| json!({"name": i.name, "kind": i.kind, "content_hex": hex(&i.content), "content_preview": preview(&i.content, 80)})).collect::<Vec<_>>()}),
             observed: format!("{e}; argv {:?}; status {}, stdout [{}], stderr [{}]", argv, out.status.show(), preview(&out.stdout, 120), preview(&out.stderr, 160)),
             expected: format!("exit {} ({}); inputs resolved as {:?}", exp.exit, exp.why, exp.inputs),
         });
@@ -232,9 +267,9 @@ pub fn run(ctx: &Ctx) -> i32 {
         judge(&case, acc);
     });
     strace_sample(&mut acc);
-    let rule = format!("{} invocations: -f absent or each format x 1-3 inputs, each a regular file / FIFO / '-' (also twice; standard input a pipe, or a regular file at offset 0 or past earlier bytes) / directory / missing file, named with every extension in random letter case, multi-dot, none or misleading, holding content of each format (1-3 generated documents), content valid in several formats, or invalid content, x all targets; expected stdout and exit status computed by the library in the matching supply mode; distinct non-trivial = distinct invocations", n);
+    let rule = format!("{} invocations: -f absent or each format x 1-3 inputs, each a regular file / FIFO / '-' (also twice; standard input a pipe, or a regular file at offset 0 or past earlier bytes; one run in five delivers pipe and FIFO content in bursts with pauses) / directory / missing file, named with every extension in random letter case, multi-dot, none or misleading, holding content of each format (1-3 generated documents), content valid in several formats, or invalid content, x all targets; expected stdout and exit status computed by the library in the matching supply mode; distinct non-trivial = distinct invocations", n);
     ev::finish(
-        Finish { ctx, level: "exploration", rule, assumptions: vec!["document-less YAML regular files are kept out (recorded C02 finding)".into(), "strace counters are evidence that both supply modes were really observed, not an oracle".into()], extra: serde_json::Map::new(), exhaustive: false, min_distinct: 1000, must_reach: vec![("input_kind_fifo".into(), 200), ("input_kind_stdin".into(), 200), ("input_kind_regular".into(), 1000), ("extension_with_upper_case".into(), 500), ("extension_kind_multi_dot".into(), 200), ("stdin_named_twice".into(), 20), ("resolved_detect_slice".into(), 100), ("resolved_detect_reader".into(), 100), ("stdin_is_regular_file_at_later_offset".into(), 100), ("stdin_is_regular_file_at_offset_0".into(), 50)] },
+        Finish { ctx, level: "exploration", rule, assumptions: vec!["document-less YAML regular files are kept out (recorded C02 finding)".into(), "strace counters are evidence that both supply modes were really observed, not an oracle".into()], extra: serde_json::Map::new(), exhaustive: false, min_distinct: 1000, must_reach: vec![("input_kind_fifo".into(), 200), ("input_kind_stdin".into(), 200), ("input_kind_regular".into(), 1000), ("extension_with_upper_case".into(), 500), ("extension_kind_multi_dot".into(), 200), ("stdin_named_twice".into(), 20), ("resolved_detect_slice".into(), 100), ("resolved_detect_reader".into(), 100), ("stdin_is_regular_file_at_later_offset".into(), 100), ("stdin_is_regular_file_at_offset_0".into(), 50), ("stdin_delivered_in_bursts".into(), 50), ("fifo_delivered_in_bursts".into(), 50)] },
         acc,
     )
 }
@@ -253,7 +288,7 @@ pub fn replay(v: &Value) -> i32 {
         inputs.push(Input { name: i["name"].as_str().unwrap_or("x").into(), kind, content: i["content_hex"].as_str().and_then(unhex).unwrap_or_default() });
     }
     let Some(to) = c["to"].as_str().and_then(Fmt::parse) else { return 2 };
-    let case = Case { from: c["from"].as_str().and_then(Fmt::parse), to, inputs, stdin: c["stdin_hex"].as_str().and_then(unhex).unwrap_or_default(), stdin_file_prefix: c["stdin_file_prefix_hex"].as_str().and_then(unhex) };
+    let case = Case { from: c["from"].as_str().and_then(Fmt::parse), to, inputs, stdin: c["stdin_hex"].as_str().and_then(unhex).unwrap_or_default(), stdin_file_prefix: c["stdin_file_prefix_hex"].as_str().and_then(unhex), bursts: c["bursts"].as_u64() };
     let mut acc = Acc::default();
     judge(&case, &mut acc);
     if acc.vio_count > 0 {
